@@ -1,6 +1,7 @@
 package props
 
 import (
+	"bytes"
 	"encoding/hex"
 	"fmt"
 
@@ -295,6 +296,105 @@ func runC02(r *engine.Run) {
 		f, p := mk(s, ch[2] == 1, ch[4] == 1, devAddr, fCnt)
 		c02Check(c, "C/"+walks[wi].name, f, p, m, []int{bit % 32}, false)
 		c.Outcome("C/" + walks[wi].name)
+	})
+
+	// ---- D: the same frame held in other value forms (FRMPayload / FOpts as several items, empty
+	// non-nil lists): the MIC is a function of the frame's serialisation, so every form that
+	// serialises to the same bytes has the same specification MIC
+	chunk := func(b []byte, cuts ...int) []lorawan.Payload {
+		var out []lorawan.Payload
+		prev := 0
+		for _, k := range append(cuts, len(b)) {
+			if k < prev || k > len(b) {
+				continue
+			}
+			out = append(out, &lorawan.DataPayload{Bytes: append([]byte(nil), b[prev:k]...)})
+			prev = k
+		}
+		return out
+	}
+	const nForms = 9
+	r.PartDims("D/value-forms", []string{"shape:6", "direction:2", "version:2", "form:9 (FRMPayload in 2/3 items, leading/trailing empty item, FOpts in 2 items, empty non-nil lists)"}, uint64(len(shapes)*2*2*nForms), func(c *engine.Case) {
+		i := c.Index
+		form := int(i % nForms)
+		i /= nForms
+		s := shapes[i%uint64(len(shapes))]
+		i /= uint64(len(shapes))
+		uplink := i%2 == 1
+		m := base
+		m.v11 = i/2 == 1
+		f, p := mk(s, uplink, true, 0x01020304, 0x00010002)
+		ref, err := p.MarshalBinary()
+		if err != nil {
+			c.Fail("D/marshal-error", err.Error(), nil)
+			return
+		}
+		mp := p.MACPayload.(*lorawan.MACPayload)
+		frm, fo := f.FRM, f.FOpts
+		switch form {
+		case 0:
+			if len(frm) < 2 {
+				c.Outcome("D/form-not-applicable")
+				return
+			}
+			mp.FRMPayload = chunk(frm, 1)
+		case 1:
+			if len(frm) < 2 {
+				c.Outcome("D/form-not-applicable")
+				return
+			}
+			mp.FRMPayload = chunk(frm, len(frm)/2)
+		case 2:
+			if len(frm) < 3 {
+				c.Outcome("D/form-not-applicable")
+				return
+			}
+			mp.FRMPayload = chunk(frm, 1, len(frm)-1)
+		case 3:
+			if !f.HasPort {
+				c.Outcome("D/form-not-applicable")
+				return
+			}
+			mp.FRMPayload = chunk(frm, 0) // an empty item first
+		case 4:
+			if !f.HasPort {
+				c.Outcome("D/form-not-applicable")
+				return
+			}
+			mp.FRMPayload = append(chunk(frm), &lorawan.DataPayload{})
+		case 5:
+			if len(fo) < 2 {
+				c.Outcome("D/form-not-applicable")
+				return
+			}
+			mp.FHDR.FOpts = chunk(fo, 1)
+		case 6:
+			if len(fo) != 0 {
+				c.Outcome("D/form-not-applicable")
+				return
+			}
+			mp.FHDR.FOpts = []lorawan.Payload{}
+		case 7:
+			if len(frm) != 0 {
+				c.Outcome("D/form-not-applicable")
+				return
+			}
+			mp.FRMPayload = []lorawan.Payload{}
+		case 8:
+			if len(fo) == 0 {
+				c.Outcome("D/form-not-applicable")
+				return
+			}
+			mp.FHDR.FOpts = chunk(fo)
+		}
+		got, err := p.MarshalBinary()
+		if err != nil || !bytes.Equal(got, ref) {
+			// whether this form is the same frame is C01's subject; not judged here
+			c.Outcome("D/form-is-not-the-same-frame(see C01)")
+			return
+		}
+		c02Check(c, "D", f, p, m, []int{int(c.Index % 32)}, false)
+		c.Outcome(fmt.Sprintf("D/form=%d", form))
 	})
 
 	// ---- C2: every bit of the serialised frame (tamper detection is decided by the spec MIC of the received content)
